@@ -15,7 +15,44 @@ function __call(o, n, args) {
   if (k === 'random' || k === 'now' || k === 'getTimezoneOffset' || (typeof k === 'string' && k.indexOf('Locale') >= 0) || k === 'constructor' || k === 'wait' || k === 'waitAsync' || k === 'toString' && typeof o === 'function' || k === 'toSource') return;
   try { f = o[k]; } catch (e) { __log.push('get throws ' + (e && e.name)); return; }
   if (typeof f !== 'function') { __log.push(__t(f)); return f; }
-  try { var r = Reflect.apply(f, o, args); __log.push(String(k.description || k) + ':' + __t(r)); return r; } catch (e) { __log.push(String(k.description || k) + ' throws ' + (e && e.name)); }
+  var saved = __self; __self = o;
+  try { var r = Reflect.apply(f, o, args); __self = saved; __log.push(String(k.description || k) + ':' + __t(r)); return r; } catch (e) { __self = saved; __log.push(String(k.description || k) + ' throws ' + (e && e.name)); }
+}
+// re-entrancy: callbacks and generator bodies that operate on the object whose builtin method is running
+var __self, __rk = 0, __rdepth = 0;
+function __op(o, k) {
+  if (__rdepth > 1 || o === undefined || o === null) return;
+  __rdepth++;
+  try {
+    switch (k % 16) {
+      case 0: __call(o, k >> 4, []); break;
+      case 1: o.length = 0; break;
+      case 2: if (typeof o.clear === 'function') o.clear(); break;
+      case 3: if (typeof o.next === 'function') o.next(1); break;
+      case 4: if (typeof o['return'] === 'function') o['return'](2); break;
+      case 5: if (typeof o['throw'] === 'function') o['throw'](3); break;
+      case 6: if (typeof o.push === 'function') o.push(1, 2); break;
+      case 7: delete o[0]; delete o.a; break;
+      case 8: if (typeof o.resize === 'function') o.resize(0); else if (o.buffer && typeof o.buffer.resize === 'function') o.buffer.resize(1); break;
+      case 9: if (typeof o.transfer === 'function') o.transfer(); else if (o.buffer && typeof o.buffer.transfer === 'function') o.buffer.transfer(); break;
+      case 10: Object.freeze(o); break;
+      case 11: Object.setPrototypeOf(o, null); break;
+      case 12: o.lastIndex = 1; o[0] = o; o.a = o; break;
+      case 13: if (typeof o.set === 'function') o.set(k, o); else if (typeof o.add === 'function') o.add(k); break;
+      case 14: if (typeof o['delete'] === 'function') o['delete'](1); else if (typeof o.pop === 'function') o.pop(); break;
+      default: __call(o, k >> 4, [o]); break;
+    }
+  } catch (e) { __log.push('re throws ' + (e && e.name)); }
+  __rdepth--;
+}
+function __re() { __op(__self, __rk); __rk = __rk * 7 + 3 & 1023; }
+function __sg(k) {
+  var g = (function* () { try { var x = yield 1; __op(g, k); yield 2; } catch (e) { __op(g, k); yield 3; } finally { __op(g, k + 1); } })();
+  g.next(); return g;
+}
+function __asg(k) {
+  var g = (async function* () { try { var x = yield 1; __op(g, k); yield 2; } catch (e) { __op(g, k); yield 3; } finally { __op(g, k + 1); } })();
+  g.next(); return g;
 }
 "#;
 
@@ -30,12 +67,16 @@ const RECV: &[&str] = &[
     "Math", "JSON", "Reflect", "Object", "Array", "String", "Number", "BigInt", "Symbol", "Function", "Promise", "Atomics", "globalThis", "Array.prototype", "Object.prototype",
     "[].values()", "new Map().entries()", "'ab'[Symbol.iterator]()", "/x/g[Symbol.matchAll]('xx')", "arguments", "new (class A { #p = 1; static s = 2; m() { return this.#p } })()",
     "new FinalizationRegistry(() => {})", "Intl", "new Array(300)", "Object.freeze([1, 2])", "Object.seal({ z: 1 })", "R0", "R1", "R2", "R3",
+    "__sg(3)", "__sg(4)", "__sg(5)", "__sg(0)", "__asg(3)", "__asg(4)", "__sg(__rk)", "__asg(__rk)",
 ];
 const ARGS: &[&str] = &[
     "0", "1", "2", "3", "-1", "0.5", "NaN", "Infinity", "-Infinity", "-0", "300", "undefined", "null", "true", "'a'", "''", "'length'", "'0'", "'abc'", "10n",
     "[]", "[1, 2]", "({})", "({ length: 3, 0: 'a' })", "(x => x)", "((a, b) => a < b ? -1 : a > b ? 1 : 0)", "function () { return this }", "Symbol.iterator", "/b/g",
     "({ valueOf() { return 2 } })", "({ toString() { return 'k' } })", "({ get x() { return 1 } })", "new Uint8Array(4)", "new ArrayBuffer(4)", "Object", "Set",
     "R0", "R1", "R2", "R3", "({ then(r) { r(1) } })", "({ [Symbol.toPrimitive]() { throw new TypeError('tp') } })", "'\\ud800'", "1000", "-300", "2.5",
+    "(function () { __re(); return 1 })", "(function (a, b) { __re(); return a < b ? -1 : 1 })", "({ valueOf() { __re(); return 1 } })", "({ toString() { __re(); return '0' } })",
+    "({ get length() { __re(); return 2 }, 0: 1, 1: 2 })", "({ [Symbol.iterator]() { __re(); return [1, 2][Symbol.iterator]() } })", "({ then(r) { __re(); r(1) } })",
+    "new Proxy({}, { get(t, k) { __re(); return t[k] }, has() { __re(); return false } })", "({ get x() { __re(); return 1 }, get 0() { __re(); return 0 } })",
 ];
 
 pub struct Wild {
@@ -57,6 +98,9 @@ pub fn generate(tape: &[u8]) -> Wild {
             args.push(*t.pick(ARGS));
         }
         let dst = t.below(4);
+        if t.chance(100) {
+            s.push_str(&format!("__rk = {};\n", t.below(256)));
+        }
         s.push_str(&format!("try {{ R{dst} = __call({recv}, {idx}, [{}]); }} catch (e) {{ __log.push('outer ' + (e && e.name)); }}\n", args.join(", ")));
     }
     s.push_str("})();\nprint(__log.join('|'));\n");
